@@ -419,6 +419,9 @@ fn host_history(h: &HostConsistency, bit: &mut dyn FnMut(&str) -> bool) -> Vec<S
     let present: Vec<bool> = (0..pairs.len()).map(|k| bit(&format!("e{}", k))).collect();
     let hole_first = bit("hole_first");
     let hole_mid = bit("hole_mid");
+    // undirected hosts: every edge is handed over with its endpoints swapped (the graph is the same)
+    let flip = !h.directed && bit("flip");
+    let pairs: Vec<(usize, usize)> = if flip { pairs.iter().map(|&(a, b)| (b, a)).collect() } else { pairs };
     macro_rules! on {
         ($ty:ty) => {
             match h.host {
@@ -461,6 +464,13 @@ fn host_history(h: &HostConsistency, bit: &mut dyn FnMut(&str) -> bool) -> Vec<S
                 }
                 HostKind::Csr => {
                     let mut g: petgraph::csr::Csr<(), u8, $ty> = petgraph::csr::Csr::with_nodes(n + 1);
+                    if hole_first {
+                        // an earlier generation of edges, removed again with clear_edges()
+                        for &(a, b) in pairs.iter() {
+                            g.add_edge(a as u32, b as u32, 77);
+                        }
+                        g.clear_edges();
+                    }
                     for (k, &(a, b)) in pairs.iter().enumerate() {
                         if present[k] {
                             g.add_edge(a as u32, b as u32, k as u8);
@@ -652,6 +662,7 @@ impl Harness for HostConsistency {
                 }
                 let _ = SymBool::var("hole_first");
                 let _ = SymBool::var("hole_mid");
+                let _ = SymBool::var("flip");
             },
             |_| {
                 let mut bit = |name: &str| decide(name);
